@@ -8,6 +8,20 @@ MATCH = dict(name="match", pkg="./integration/", test="TestVerifMatch", files=IN
              nq=60000, nt=600000)
 
 PROPS = {
+    "C05": dict(
+        lean_modules=["L4.Props.C05", "L4.Expect.C05"],
+        stages=[
+            dict(name="timed", pkg="./layer4/", test="TestVerifTimed", files=L4 + ["layer4/verif_route_test.go", "layer4/verif_timed_test.go"], nq=40, nt=400, lean=False, seeded=True),
+            dict(name="route", pkg="./layer4/", test="TestVerifRoute", files=L4 + ["layer4/verif_route_test.go"], nq=4000, nt=40000,
+                 only_sigs=["prefetch-without-deadline", "handler-read-under-deadline", "dropped-though-decided"]),
+            dict(name="conn", pkg="./layer4/", test="TestVerifConn", files=L4 + ["layer4/verif_conn_test.go"], nq=3000, nt=40000,
+                 only_sigs=["buffer-bound", "prefetch-full-read"], ignore_diffs=True),
+        ],
+        level_text="Kernel-checked on a timed connection model (arrivals with times, explicit read deadline): a prefetch times out only if a deadline is armed and nothing arrives by it (not early), succeeds no later than the deadline, never times out without a deadline, adds at most one chunk and is refused at MaxMatchingBytes (buffer < limit + chunk); arming always sets the instant computed on entry (absolute deadline); on the router transcription every handler is invoked on a connection with the deadline cleared and an abort returns without further handler or fallback. The router model is tied to Compile by C02's trace differential; deadline bookkeeping of every socket read (matching reads armed, handler reads not) is judged on the real Compile, and real-time scenarios (silent, late, trickle, flood, handler after match, non-terminal then undecided, nested subroute; TCP-like conn with real deadlines and the real UDP packetConn via servePacket, start phases swept across the wall-clock second) are judged with a [timeout − 8 ms, timeout + 300 ms] window.",
+        level_note="Trusted: Lean kernel, harness, Go timers. Partial: scheduling slack is a tolerance, not a theorem; matcher CPU time is zero in the model; the timed scenarios are not diffed against the model (oracle only), a timing verdict is reported only if it reproduces three times; 'the connection is closed' after an abort is server.handle's deferred Close (not observed here).",
+        rule="timed: 10 scenario kinds × timeouts {120, 200, 300, 420} ms run 12 at a time; route: C02's random route lists with per-read deadline bookkeeping; conn: C01's op sequences judged for the buffer bound; non-trivial = scenario completed; distinct = distinct outputs",
+        assumptions=['wall-clock measurements on a loaded machine stay within 300 ms of the modelled instant'],
+    ),
     "C12": dict(
         lean_modules=["L4.Props.C12", "L4.Expect.C12"],
         stages=[
